@@ -3865,7 +3865,9 @@ spmatrix_ass_subscr(spmatrix* self, PyObject* args, PyObject* value)
 
   if (!(Il = create_indexlist(SP_NROWS(self), argI)) ||
       !(Jl = create_indexlist(SP_NCOLS(self), argJ))) {
-    PyErr_SetNone(PyExc_MemoryError);
+    /* create_indexlist has set IndexError/TypeError for an invalid index */
+    if (!PyErr_Occurred()) PyErr_SetNone(PyExc_MemoryError);
+    if (decref_val) { Py_DECREF(value); }
     free_lists_exit(argI,argJ,Il,Jl,-1);
   }
 
